@@ -189,6 +189,30 @@ def run_link_locked(pid: str, repo=None) -> dict:
             fcntl.flock(lk, fcntl.LOCK_UN)
 
 
+def conformance_status() -> str:
+    """what translator/conformance.py (run by translator/selftest.sh, i.e. at setup) last said about the trusted prelude / idioms /
+    mapped callees, read from its stamp file; 'stale' when the trusted files changed since"""
+    import hashlib
+    import json
+
+    stamp = core.BUILD / "conformance.stamp.json"
+    if not stamp.exists():
+        return "not run (no build/conformance.stamp.json: run translator/selftest.sh)"
+    try:
+        d = json.loads(stamp.read_text())
+    except Exception as e:
+        return f"not run (unreadable stamp: {e})"
+    h = hashlib.sha1()
+    for p in [core.ROOT / "coq/theories/Translate/PyPrelude.v", TRANSLATOR / "py2gallina.py", TRANSLATOR / "pytypes.py"]:
+        h.update(p.read_bytes())
+    what = f"{d.get('families')} families, {d.get('cases')} cases, {d.get('when')}"
+    if h.hexdigest()[:16] != d.get("trusted_hash"):
+        return f"stale: PyPrelude.v / py2gallina.py changed since the last run ({what})"
+    if d.get("ok"):
+        return f"passed at setup ({what}; CPython and the real mapped callees against vm_compute)"
+    return f"FAILED ({what}): " + "; ".join(f[0] for f in d.get("failures", []))[:400]
+
+
 def check_link(ctx, pid: str):
     """Record the translation tie in ctx (notes / trusted base), or a 'proof' violation naming what no longer checks."""
     try:
@@ -200,6 +224,7 @@ def check_link(ctx, pid: str):
         return None
     note = ctx.notes.setdefault("translated_and_linked", dict(count=0, functions=[], lemmas=[], seconds=0.0))
     note["seconds"] = round(note["seconds"] + res["seconds"], 2)
+    note["prelude_conformance"] = conformance_status()
     if res["ok"]:
         note["count"] += len(res["functions"])
         note["functions"] += [f"{pid}:{f}" for f in res["functions"]]
